@@ -1,5 +1,5 @@
 """C01 -- customer conservation."""
-from ..sysprop import system_subcheck
+from ..sysprop import system_subcheck, fuzz_subcheck
 from ..monitors.conservation import Conservation
 from .. import strategies as S
 from . import common
@@ -34,6 +34,7 @@ def classes(a, spec, res):
 
 def subchecks(tier):
     prof = common.full_profile(max_nodes=4)
-    return [system_subcheck("lattice", prof, lambda spec: [Conservation()], nontrivial, classes=classes,
+    base = system_subcheck("lattice", prof, lambda spec: [Conservation()], nontrivial, classes=classes,
                             n={"quick": 7200, "thorough": 40000},
-                            rule="full lattice, conservation monitor after every event")]
+                            rule="full lattice, conservation monitor after every event")
+    return [base, fuzz_subcheck(base, tier)]
